@@ -274,4 +274,5 @@ def run(ctx):
     return ctx.finish(
         "Ordering/gate/field-coverage rules over subtree.c, tree.c, point.c, node.c: every node on the edited path is marked and written back; a child is skipped only "
         "by the look-ahead-aware or starts-after tests (with both column-dependence escapes); inline leaves are promoted with all fields when they no longer fit; "
-        "ts_tree_edit edits every stored range. Does not decide the shift/shrink arithmetic.")
+        "ts_tree_edit edits every stored range; each reshaping case (shift / shrink / resize, first-touching child takes the insertion) is entered only under its own position tests. "
+        "Does not decide the length arithmetic inside a case.")
